@@ -15,7 +15,7 @@ VARIABLES hs,       \* handle -> "closed" | "rw" | "ro"
           npub,     \* messages published so far (only to make states with data)
           hist
 vars == <<hs, exists, corrupt, npub, hist>>
-view == <<hs, exists, corrupt, npub, Len(hist)>>
+view == <<hs, exists, corrupt, npub, Len(hist), IF hist = <<>> THEN <<>> ELSE <<hist[Len(hist)]>> >>
 
 Init == hs = [i \in H |-> "closed"] /\ exists = FALSE /\ corrupt = FALSE /\ npub = 0 /\ hist = <<>>
 
@@ -24,20 +24,26 @@ Readers == {i \in H : hs[i] = "ro"}
 AllClosed == \A i \in H : hs[i] = "closed"
 
 \* the result klevdb.Open must give: "" or the reason of the failure
-OpenResult(mode, create, check) ==
+\* (Options.Recover: a read-write Open REPAIRS the head (Recover takes precedence over Check); a read-only Open
+\* must not write, so Recover means Check there - seeded change S133 made it repair under the shared lock)
+OpenResult(mode, create, check, recover) ==
   IF ~exists /\ ~create THEN "NoDir"
   ELSE IF mode = "rw" /\ (Writers # {} \/ Readers # {}) THEN "Locked"
   ELSE IF mode = "ro" /\ Writers # {} THEN "Locked"
-  ELSE IF check /\ corrupt THEN "Check"
+  ELSE IF corrupt /\ mode = "ro" /\ (check \/ recover) THEN "Check"
+  ELSE IF corrupt /\ mode = "rw" /\ check /\ ~recover THEN "Check"
   ELSE ""
+Repairs(mode, create, check, recover) == OpenResult(mode, create, check, recover) = "" /\ mode = "rw" /\ recover
 
-Open(i, mode, create, check) ==
+Open(i, mode, create, check, recover) ==
   /\ hs[i] = "closed" /\ Len(hist) < MaxLen
-  /\ LET r == OpenResult(mode, create, check) IN
+  /\ LET r == OpenResult(mode, create, check, recover) IN
      /\ hs' = IF r = "" THEN [hs EXCEPT ![i] = mode] ELSE hs      \* a failed Open holds nothing
      /\ exists' = (exists \/ create)                               \* MkdirAll happens before anything else
-     /\ hist' = Append(hist, [op |-> "open", id |-> i, mode |-> mode, create |-> create, check |-> check, res |-> r])
-  /\ UNCHANGED <<corrupt, npub>>
+     /\ hist' = Append(hist, [op |-> "open", id |-> i, mode |-> mode, create |-> create, check |-> check,
+                              recover |-> recover, res |-> r])
+     /\ corrupt' = (corrupt /\ ~Repairs(mode, create, check, recover))
+  /\ UNCHANGED npub
 
 Close(i) == /\ hs[i] # "closed" /\ Len(hist) < MaxLen
             /\ hs' = [hs EXCEPT ![i] = "closed"]
@@ -58,7 +64,8 @@ Repair == /\ AllClosed /\ corrupt /\ Len(hist) < MaxLen
           /\ corrupt' = FALSE /\ hist' = Append(hist, [op |-> "repair"])
           /\ UNCHANGED <<hs, exists, npub>>
 
-Next == \/ \E i \in H, mode \in {"rw", "ro"}, create \in BOOLEAN, check \in BOOLEAN : Open(i, mode, create, check)
+Next == \/ \E i \in H, mode \in {"rw", "ro"}, create \in BOOLEAN, check \in BOOLEAN, recover \in BOOLEAN :
+             Open(i, mode, create, check, recover)
         \/ \E i \in H : Close(i) \/ Publish(i)
         \/ Damage \/ Repair
 Spec == Init /\ [][Next]_vars
@@ -67,5 +74,7 @@ Spec == Init /\ [][Next]_vars
 OneWriter == Cardinality(Writers) <= 1
 WriterExclusive == Writers # {} => Readers = {}
 \* the lock is released by Close and by a failed Open: whenever everything is closed, an open can succeed
-Released == (AllClosed /\ exists /\ ~corrupt) => OpenResult("rw", FALSE, TRUE) = ""
+Released == (AllClosed /\ exists /\ ~corrupt) => OpenResult("rw", FALSE, TRUE, FALSE) = ""
+\* a read-only Open never repairs, whatever its options
+ReadOnlyNeverRepairs == \A create \in BOOLEAN, check \in BOOLEAN, recover \in BOOLEAN : ~Repairs("ro", create, check, recover)
 =============================================================================
